@@ -42,7 +42,7 @@ Print Assumptions C04_splice_without_shutdown_refuted.
 Theorem C04_source_shape :
   Gen_relay.rawfd_destination_shut_down = true /\ Gen_relay.stream_destination_shut_down = true /\
   Gen_relay.frames_destination_shut_down = true /\ Gen_relay.splice_breaks_on_zero_read = true /\
-  Gen_relay.bidi_runs_two_halves_until_both_done = true.
+  Gen_relay.bidi_runs_two_halves_until_both_done = true /\ Gen_relay.io_errors_abort_both_directions = true.
 Proof. repeat split; reflexivity. Qed.
 Print Assumptions C04_source_shape.
 
